@@ -196,6 +196,15 @@ static bool run_sequence(const std::vector<int> & seq, PFail & f, Stats & st, bo
     if ((int)x.get_operations().size() != m.nops) return fail((int)k, "getter:operations", "get_operations().size()=" + std::to_string(x.get_operations().size()) + " expected " + std::to_string(m.nops) + where);
     if (x.get_event_count() != m.count) return fail((int)k, "getter:event_count", "get_event_count()=" + std::to_string(x.get_event_count()) + " expected " + std::to_string(m.count) + where);
     if (!x.has_next()) return fail((int)k, "getter:has_next", "has_next() is false" + where);
+    // the engine's working data seen through the informational getters: while the object is not initialised they report what a newly
+    // constructed generator reports (a failed initialisation may have filled them in; reset and re-creation must wipe them)
+    if (!m.init && (c == RESET || c == RECREATE || !m.init_attempted)) {
+      static const G fresh; const bxdecay0::bbpars & pa = x.get_bb_params(), & pf = fresh.get_bb_params();
+      auto same = [](double u, double v) { return (std::isnan(u) && std::isnan(v)) || u == v; };
+      if (!same(x.get_to_all_events(), fresh.get_to_all_events())) return fail((int)k, "getter:to_all_events", "get_to_all_events()=" + jnum(x.get_to_all_events()) + ", a new generator reports " + jnum(fresh.get_to_all_events()) + where);
+      if (pa.modebb != pf.modebb || pa.istartbb != pf.istartbb || !same(pa.ebb1, pf.ebb1) || !same(pa.ebb2, pf.ebb2) || !same(pa.Qbb, pf.Qbb) || !same(pa.Edlevel, pf.Edlevel) || !same(pa.toallevents, pf.toallevents) || !same(pa.spmax, pf.spmax) || !same(pa.spthe1[0], pf.spthe1[0]) || !same(pa.spthe1[500], pf.spthe1[500]))
+        return fail((int)k, "getter:bb_params", "get_bb_params() differs from a new generator's (modebb " + std::to_string(pa.modebb) + "/" + std::to_string(pf.modebb) + ", istartbb " + std::to_string(pa.istartbb) + "/" + std::to_string(pf.istartbb) + ", ebb1 " + jnum(pa.ebb1) + "/" + jnum(pf.ebb1) + ", toallevents " + jnum(pa.toallevents) + "/" + jnum(pf.toallevents) + ")" + where);
+    }
   }
   return true;
 }
